@@ -114,7 +114,7 @@ def structure_class(c):
     if not hasattr(c, "atoms"):
         return "cxx"
     packed = c.rattr in ("packed", "pk_al4", "pp1", "pp2", "pp4", "pp8") or c.mattr == "mpk"
-    aligned = c.rattr in ("al2", "al4", "al8", "al16", "al64", "pk_al4") or c.mattr in ("mal8", "mal16")
+    aligned = c.rattr in ("al2", "al4", "al8", "al16", "al64", "pk_al4") or c.mattr in ("mal8", "mal16", "mal64")
     over = any(k in ("nestal", "ldouble", "i128") for k in c.atoms)
     bits = any(k.startswith("bf") for k in c.atoms)
     incomplete = any(k in ("zla", "flex") for k in c.atoms)
